@@ -4,7 +4,7 @@ import json
 import os
 
 V = os.path.dirname(os.path.dirname(os.path.abspath(__file__)))
-TECH = 'contract-based deductive verification of the real code (pyvc: the repository functions executed on z3-backed proxies, all paths, loops cut by invariants, callees by contract; obligations discharged by z3, cvc5 for unknowns)'
+TECH = 'contract-based deductive verification of the real code (pyvc: the repository functions executed on z3-backed proxies, all paths, loops cut by invariants, callees by contract; obligations discharged by z3, cvc5 for unknowns; the same contracts are also run natively on random concrete inputs - a bounded run-time check that is never counted as proved)'
 BND = 'bounded run-time contract check of the real pandas/numpy-bound functions against an independent pure-Python spec (stand-in, never counted as proved)'
 
 P = {
